@@ -11,21 +11,24 @@ namespace Operon.Coord
 
 def nexts (E : Edges) (n : Nat) : List Nat := (succs E n).map (·.1)
 
-mutual
+/-- the `for blocking, resource in self.edges[node]` loop of the closure; `rec b visited path` stands for the
+    recursive call `dfs(b)` -/
+def dfsSuccs (rec : Nat → List Nat → List Nat → Option (List Nat) × List Nat) :
+    List Nat → List Nat → List Nat → Option (List Nat) × List Nat
+  | [], visited, _ => (none, visited)
+  | b :: bs, visited, path =>
+    if b ∉ visited then
+      match rec b (b :: visited) (path ++ [b]) with
+      | (some c, v) => (some c, v)
+      | (none, v) => dfsSuccs rec bs v path
+    else if b ∈ path then (some (path.dropWhile (· ≠ b)), visited)
+    else dfsSuccs rec bs visited path
+
 /-- the closure `dfs(node)`; `visited` already contains `node`, `path` already ends with `node` -/
 def dfs (E : Edges) : Nat → Nat → List Nat → List Nat → Option (List Nat) × List Nat
   | 0, _, visited, _ => (none, visited)
-  | fuel + 1, node, visited, path => dfsSuccs E fuel node (nexts E node) visited path
-def dfsSuccs (E : Edges) : Nat → Nat → List Nat → List Nat → List Nat → Option (List Nat) × List Nat
-  | _, _, [], visited, _ => (none, visited)
-  | fuel, node, b :: bs, visited, path =>
-    if b ∉ visited then
-      match dfs E fuel b (b :: visited) (path ++ [b]) with
-      | (some c, v) => (some c, v)
-      | (none, v) => dfsSuccs E fuel node bs v path
-    else if b ∈ path then (some (path.dropWhile (· ≠ b)), visited)
-    else dfsSuccs E fuel node bs visited path
-end
+  | fuel + 1, node, visited, path =>
+    dfsSuccs (fun b v p => dfs E fuel b v p) (nexts E node) visited path
 
 def dfsFuel (E : Edges) : Nat := E.length + (E.map (·.2.length)).sum + 1
 
